@@ -337,9 +337,16 @@ def run(ctx, chk):
                 if not reads:
                     closures = any(s_[0] == "assign" and s_[2][0] == "agg" and isinstance(s_[2][1], dict) and s_[2][1].get("k") == "closure"
                                    for bb in f["blocks"] for s_ in bb["stmts"])
+                    touches_mem = any(isinstance(e_, list) and e_[0] == "f" and len(e_) > 2 and e_[2] == "mem"
+                                      for bb in f["blocks"] for s_ in bb["stmts"] if s_[0] == "assign"
+                                      for pl_ in ([s_[2][1]] if s_[2][0] in ("ref", "use") and isinstance(s_[2][1], dict) else
+                                                  [s_[2][1][1]] if s_[2][0] == "use" and isinstance(s_[2][1], list) and s_[2][1][0] in ("copy", "move") else [])
+                                      for e_ in pl_.get("p", []))
                     if closures:
                         # the bytes may be read inside a closure handed to an iterator adaptor: not followed
                         chk.undecided_("C18.R5", f"{unit}:string", "memory is read inside a closure (iterator adaptor): address not followed")
+                    elif touches_mem:
+                        chk.undecided_("C18.R5", f"{unit}:string", "the machine's memory is borrowed (slices / iterators), not indexed byte by byte: address not followed")
                     else:
                         chk.violation("C18.R5", unit, "no-string-read", "AH=13h reads no memory", where)
     # int_13 cannot modify the machine at all
@@ -367,8 +374,19 @@ def run(ctx, chk):
                         desc = ko[1][1].get("vname", "").lower()
                 bounds.append((s[3], desc))
     got = sorted(d for _, d in bounds if d)
-    if got == ["cx", "cx", "dl"]:
+    want_b = ["cx", "cx", "dl"]
+    rest = list(want_b)
+    sub = True
+    for g in got:
+        if g in rest:
+            rest.remove(g)
+        else:
+            sub = False
+    if got == want_b:
         chk.ok("C18.R5", "int_13:loop-bounds", "AH=0Ah repeats CX times; AH=13h pads DL times and copies CX bytes")
+    elif sub:
+        # fewer register-bounded ranges than documented loops: some loop is bounded another way (a slice, an iterator)
+        chk.undecided_("C18.R5", "int_13:loop-bounds", f"only the ranges bounded by {got} are visible; another loop is not a counted range")
     else:
         chk.violation("C18.R5", "int_13", f"loop-bounds:{','.join(got)}", f"the three output loops of int 10h are bounded by {got}; documented: CX (0Ah), DL and CX (13h)", file_of(f13))
     # ---------------- R2: capacity
